@@ -18,7 +18,7 @@ RULE = (
     "case). Oracles whenever a fit returns: inside bounds; fixed parameters and fixed POI at the supplied "
     "value; reported objective == 2*reference NLL at the returned point; minuit uncertainties 0 for fixed "
     "parameters; objective <= closed-form optimum / best objective among 60 random feasible points, "
-    "perturbations and the other configurations (+ tolerance); closed-form families must succeed. "
+    "perturbations, an independent L-BFGS-B polish of the reference objective and the other configurations (+ tolerance); closed-form families must succeed. "
     "Non-trivial: >=1 free nuisance, optimum on a bound, or non-empty fixed mask; distinct by (model "
     "signature, mask, data, optimizer, backend)."
 )
@@ -286,6 +286,30 @@ def run_case(case, ctx):
                 fy = nll2(y)
                 if fy == fy and fy < best_other:
                     best_other, arg = fy, y
+            # independent polish: L-BFGS-B on the *reference* objective over the free parameters, started at
+            # the returned point (an optimiser that shares nothing with SLSQP / MIGRAD)
+            if free and math.isfinite(f_ref):
+                from scipy.optimize import minimize as _minimize
+
+                def _obj(z):
+                    y = list(x)
+                    for i, zi in zip(free, z):
+                        y[i] = float(zi)
+                    v = nll2(y)
+                    return v if v == v and math.isfinite(v) else 1e300
+
+                try:
+                    pol = _minimize(_obj, [x[i] for i in free], method="L-BFGS-B",
+                                    bounds=[bounds[i] for i in free], options={"maxiter": 60, "maxfun": 400})
+                    if pol.fun < best_other:
+                        y = list(x)
+                        for i, zi in zip(free, pol.x):
+                            y[i] = float(min(max(zi, bounds[i][0]), bounds[i][1]))
+                        fy = nll2(y)
+                        if fy == fy and fy < best_other:
+                            best_other, arg = fy, y
+                except Exception:  # noqa: BLE001 - the polish is an aid, never a verdict
+                    pass
             if best_other < val - tol_opt:
                 name = classify(f"{sig}/better_feasible_point_exists/{case['family']}/{tag}", do_stitch, do_grad,
                                 best_other, x, val, eff_fixed)
